@@ -139,6 +139,17 @@ def parseT4T7 (key pfx : String) (headers trailers : MD) : Option Int :=
       | none => none
       | some ms => some (wrap64 (ms * 1000000))
 
+/-- the duration the property asks for: the millisecond value of the first entry, exactly -/
+def parseT4T7Exact (key pfx : String) (headers trailers : MD) : Option Int :=
+  let st := if (mdGet headers key).length > 0 then some (mdGet headers key)
+            else if (mdGet trailers key).length > 0 then some (mdGet trailers key) else none
+  match st with
+  | none => none
+  | some entries =>
+    match entries.find? (fun e => e.startsWith pfx) with
+    | none => none
+    | some e => (parseInt64 (e.drop pfx.length).toString).map (· * 1000000)
+
 /-! ### flag validation and resource names -/
 
 /-- the character class of a regex of the form `^[class]*$` (ranges a-z, literal characters);
